@@ -24,6 +24,7 @@ SPEC = "JsonRpc"
 MC_PRE = b'{"p":'                                                   # envelope prefix of the bounded models (McPre)
 REAL_PRE = b'{"jsonrpc":"2.0","method":"m","id":7,"params":'        # what the real code needs to deliver a message
 FRAMINGS = ["raw", "header", "packet"]
+TLC_ENV = {"JAVA_TOOL_OPTIONS": "-Xss512m"}       # the reference scanners recurse once per byte of a frame
 
 
 def B(x):
@@ -111,7 +112,7 @@ def rnd_message_item(r):
     kind = r.randrange(6)
     rid = r.choice([1, 2, 7, 0, -5, 2147483647, r.randrange(1, 1000)])
     if kind == 0:
-        return {"enc": "req", "id": rid, "m": B(rnd_string(r) or "m"), "p": (B(json.dumps(rnd_value(r), ensure_ascii=False)) if r.random() < 0.85 else None)}
+        return {"enc": "req", "id": rid, "m": B(rnd_string(r) or "m"), **({"p": B(json.dumps(rnd_value(r), ensure_ascii=False))} if r.random() < 0.85 else {})}
     if kind == 1:
         return {"enc": "res", "id": rid or 3, "p": B(json.dumps(rnd_value(r), ensure_ascii=False))}
     if kind == 2:
@@ -213,7 +214,7 @@ def run_frame(ctx, exe, scripts, tag, what, replayed):
             fh.write(json.dumps(s) + "\n")
     tr = ctx.tmp(tag + ".ndjson")
     before = ctx.traces_ok
-    ok, n = vlib.record_and_validate(ctx, exe, ["frame", sp, tr], tr, SPEC, "Trace_Framing.tla", "Trace_Framing.cfg", what)
+    ok, n = vlib.record_and_validate(ctx, exe, ["frame", sp, tr], tr, SPEC, "Trace_Framing.tla", "Trace_Framing.cfg", what, tlc_env=TLC_ENV)
     if ok and replayed:
         ctx.traces_ok = before
         ctx.replays_ok += n
@@ -265,7 +266,7 @@ def seeded_rpc_scripts(r, n, nsteps):
             elif x < 0.3:
                 steps.append({"o": "req", "cb": False})
             elif x < 0.5 and nreq:
-                k = r.randrange(1, nreq + 2)
+                k = max(1, nreq + 1 - r.choice([0, 1, 1, 1, 2, 2, 3, 5]))          # mostly a recent request, sometimes one not issued yet
                 steps.append({"o": "rsp", "k": k, "kind": "err", "val": r.choice([-1, -7, 5, -32601])} if r.random() < 0.3 else {"o": "rsp", "k": k})
             elif x < 0.6:
                 steps.append({"o": "rsp", "raw": r.choice(STRANGERS)})
@@ -285,7 +286,7 @@ def run_rpc(ctx, exe, scripts, tag, what, replayed):
             fh.write(json.dumps(s) + "\n")
     tr = ctx.tmp(tag + ".ndjson")
     before = ctx.traces_ok
-    ok, n = vlib.record_and_validate(ctx, exe, ["rpc", sp, tr], tr, SPEC, "Trace_Rpc.tla", "Trace_Rpc.cfg", what)
+    ok, n = vlib.record_and_validate(ctx, exe, ["rpc", sp, tr], tr, SPEC, "Trace_Rpc.tla", "Trace_Rpc.cfg", what, tlc_env=TLC_ENV)
     if ok and replayed:
         ctx.traces_ok = before
         ctx.replays_ok += n
@@ -312,19 +313,50 @@ def run(ctx):
         ctx.log("replay file holds no recorded execution (a model-level counterexample): running the whole check")
     q = ctx.quick()
     r = random.Random(ctx.seed)
+    only = os.environ.get("C14_ONLY", "")               # development aid: run a subset of the stages (mc,genframe,genrpc,rndframe,rndrpc)
+    want = lambda stage: not only or stage in only.split(",")
 
     # 1. the designs -----------------------------------------------------------------------------------------------
-    ctx.tlc_mc(SPEC, "MC_Framing.tla", "MC_fr_quick.cfg" if q else "MC_fr_thorough.cfg", required_actions=FR_ACTIONS, timeout=1500)
+    if want("mc"):
+        model_checks(ctx, q)
+    # 2. spec -> code ----------------------------------------------------------------------------------------------
+    if want("genframe"):
+        replay_framing(ctx, exe, q)
+    if want("genrpc"):
+        replay_rpc(ctx, exe, q, r)
+    # 3. code -> spec ----------------------------------------------------------------------------------------------
+    if want("rndframe"):
+        nv, nh = (500, 700) if q else (6000, 8000)
+        fscripts = seeded_framing_scripts(random.Random(ctx.seed * 7919 + 1), nv, nh)
+        ok, tr = run_frame(ctx, exe, fscripts, "rndframe", "seeded corpora: %d valid streams, %d hostile streams, segmented" % (nv, nh), False)
+        ctx.sample({"kind": "recorded framing trace (first events)", "events": [json.loads(x)["e"] for x in vlib.read_lines(tr, 1, 12)]})
+    if want("rndrpc"):
+        nr, ns = (400, 30) if q else (5000, 40)
+        ok, tr = run_rpc(ctx, exe, seeded_rpc_scripts(random.Random(ctx.seed * 104729 + 2), nr, ns), "rndrpc",
+                         "seeded request/response/clock histories (%d x %d steps)" % (nr, ns), False)
+        ctx.sample({"kind": "recorded rpc trace (first events)", "events": [json.loads(x) for x in vlib.read_lines(tr, 2, 14)]})
+    evidence_notes(ctx)
+
+
+def model_checks(ctx, q):
+    # small configurations with per-action coverage (vacuity guard), then the bounded scopes without coverage
+    ctx.tlc_mc(SPEC, "MC_Framing.tla", "MC_fr_cov.cfg", required_actions=FR_ACTIONS)
+    ctx.tlc_mc(SPEC, "MC_Framing.tla", "MC_fr_quick.cfg" if q else "MC_fr_thorough.cfg", coverage=False, timeout=1500)
     ctx.tlc_mc(SPEC, "MC_Framing.tla", "MC_fr_asfound.cfg", expect="TotalByReturnValue", coverage=False)   # 32-bit wrap of length+6
     ctx.tlc_mc(SPEC, "MC_Framing.tla", "MC_fr_noesc.cfg", expect="RoundTrip", coverage=False)             # escapes ignored
-    ctx.tlc_mc(SPEC, "MC_Rpc.tla", "MC_rpc_quick.cfg" if q else "MC_rpc_thorough.cfg", required_actions=RPC_ACTIONS, timeout=1500)
+    ctx.tlc_mc(SPEC, "MC_Rpc.tla", "MC_rpc_cov.cfg", required_actions=RPC_ACTIONS)
+    ctx.tlc_mc(SPEC, "MC_Rpc.tla", "MC_rpc_quick.cfg" if q else "MC_rpc_thorough.cfg", coverage=False, timeout=1500)
+    ctx.tlc_mc(SPEC, "MC_Rpc.tla", "MC_rpc_flat.cfg", coverage=False, timeout=1500)
+    ctx.tlc_mc(SPEC, "MC_Rpc.tla", "MC_rpc_n3.cfg", coverage=False, timeout=1500)
     ctx.tlc_mc(SPEC, "MC_Rpc.tla", "MC_rpc_asfound.cfg", expect="CallbackAtMostOnce", coverage=False)      # invoke, then erase
     ctx.tlc_mc(SPEC, "MC_Rpc.tla", "MC_rpc_keep.cfg", expect="CallbackAtMostOnce", coverage=False)         # response keeps the callback
     ctx.exhaustive = True
     for fn in glob.glob(os.path.join(vlib.SPEC, SPEC, "*_TTrace_*")):      # TLC's trace-explorer files of the expected violations
         os.remove(fn)
 
-    # 2. spec -> code ----------------------------------------------------------------------------------------------
+
+
+def replay_framing(ctx, exe, q):
     behs = ctx.tlc_gen(SPEC, "Gen_Framing.tla", "Gen_fr_quick.cfg" if q else "Gen_fr_thorough.cfg", timeout=1500)
     scripts = gen_to_scripts(behs)
     ctx.notes.append("framing: %d model behaviours (scenario x segmentation) -> %d scenarios, %d runs on the real protos" %
@@ -332,6 +364,9 @@ def run(ctx):
     ctx.sample({"kind": "model behaviour replayed on the real proto (framing)", "script": scripts[len(scripts) // 2]})
     run_frame(ctx, exe, scripts, "genframe", "replay of %d model scenarios (framing)" % len(scripts), True)
 
+
+
+def replay_rpc(ctx, exe, q, r):
     rbehs = ctx.tlc_gen(SPEC, "Gen_Rpc.tla", "Gen_rpc_quick.cfg" if q else "Gen_rpc_thorough.cfg", timeout=1500)
     deep = ctx.tlc_gen(SPEC, "Gen_Rpc.tla", "Gen_rpc_sim.cfg", simulate=(1000000, 60), timeout=6 if q else 60, workers=4,
                        limit=1500 if q else 20000)
@@ -339,15 +374,9 @@ def run(ctx):
     ctx.sample({"kind": "model behaviour replayed on the real Rpc", "script": rscripts[len(rbehs) // 3]})
     run_rpc(ctx, exe, rscripts, "genrpc", "replay of %d model behaviours (rpc)" % len(rscripts), True)
 
-    # 3. code -> spec ----------------------------------------------------------------------------------------------
-    nv, nh = (500, 700) if q else (6000, 8000)
-    fscripts = seeded_framing_scripts(r, nv, nh)
-    ok, tr = run_frame(ctx, exe, fscripts, "rndframe", "seeded corpora: %d valid streams, %d hostile streams, segmented" % (nv, nh), False)
-    ctx.sample({"kind": "recorded framing trace (first events)", "events": [json.loads(x)["e"] for x in vlib.read_lines(tr, 1, 12)]})
-    nr, ns = (400, 30) if q else (5000, 40)
-    ok, tr = run_rpc(ctx, exe, seeded_rpc_scripts(r, nr, ns), "rndrpc", "seeded request/response/clock histories (%d x %d steps)" % (nr, ns), False)
-    ctx.sample({"kind": "recorded rpc trace (first events)", "events": [json.loads(x) for x in vlib.read_lines(tr, 2, 14)]})
 
+
+def evidence_notes(ctx):
     ctx.assumptions = [
         "delivered messages are compared through the text  kind|id|method-or-code|dump()  of what reaches the proto's callbacks",
         "well-formedness of corpus items (valid JSON, JSON-RPC shape) is the harness's own nlohmann parse; for input outside it only "
